@@ -104,8 +104,11 @@ class CheckState(object):
         return None
 
 
-def validate_row(model, row, state, rowno):
-    """-> (ACCEPTED,) | (REJECTED, kind, column|None, field|None, extra) | (UNJUDGED, zone)
+def validate_row(model, row, state, rowno, rollback=False, sticky=False):
+    """rollback=False: keys of a row that a later-declared check rejects become 'tainted' (rows using them later are
+    unjudged); rollback=True: such keys are forgotten, which is what "duplicate of an earlier ACCEPTED row" says;
+    sticky=True: such keys stay registered (the behaviour recorded as known finding of C05).
+    -> (ACCEPTED,) | (REJECTED, kind, column|None, field|None, extra) | (UNJUDGED, zone)
     kind in {"count", "field", "check"}; for kind "check" extra = (check index, first row number)."""
     n = len(model.fields)
     if len(row) != n:
@@ -123,12 +126,14 @@ def validate_row(model, row, state, rowno):
     for i, c in enumerate(model.checks):
         if c["type"] == "IsUnique":
             key = tuple(row[names.index(k)] for k in c["fields"])
-            if key in state.tainted[i]:
+            if key in state.tainted[i] and not rollback and not sticky:
                 return (UNJUDGED, "key registered by a row that a later-declared check rejected")
             first = state.unique[i].get(key)
             if first is not None:
                 for j, k in registered:
                     state.tainted[j].add(k)
+                    if rollback:
+                        del state.unique[j][k]
                 return (REJECTED, "check", None, None, (i, first))
             state.unique[i][key] = rowno
             registered.append((i, key))
@@ -137,7 +142,7 @@ def validate_row(model, row, state, rowno):
     return (ACCEPTED,)
 
 
-def expected_run(model, raw_rows, validate_until=None):
+def expected_run(model, raw_rows, validate_until=None, rollback=False, sticky=False):
     """Expected 'yield'-mode result of reading raw_rows: list of items, one per data row after the
     header: ("row", row) | ("error", rowno, verdict) ; plus the end-of-data verdict and counters.
     Returns None when some row is unjudged."""
@@ -151,7 +156,7 @@ def expected_run(model, raw_rows, validate_until=None):
             out.append(("row", row))
             accepted += 1
             continue
-        verdict = validate_row(model, row, state, rowno)
+        verdict = validate_row(model, row, state, rowno, rollback=rollback, sticky=sticky)
         if verdict[0] == UNJUDGED:
             return None
         if verdict[0] == ACCEPTED:
